@@ -178,6 +178,46 @@ def deleted_hole(exe, root, seed, stats):
     a.destroy()
     return ('%s; deleted-hole na=%d hole=%d seed=%d' % (problem, na, hole, seed), problem + '\n' + hist) if problem else None
 
+def big_deleted_run(exe, root, seed, stats):
+    """long runs: one run of DELETED blocks that covers 4 GiB (256 blocks of 16 MiB, sparse files) saved by a ranged sync:
+    the saved state must load again, re-serialise byte for byte and sync to the end (a 4 GiB parity file is written
+    and removed: about 7 s)"""
+    rng = e2e.Rng(seed)
+    kib = 16384
+    a = e2e.Arr(root, exe, ndisks=2, nparity=1, block_kib=kib, ncontent=2)
+    bs = a.block; nb = (1 << 32) // bs + 1
+    def sparse(path, t):
+        os.makedirs(os.path.dirname(path), exist_ok=True)
+        with open(path, 'wb') as f:
+            for b in (0, 1, nb // 2, nb - 1):
+                f.seek(b * bs); f.write(rng.bytes(48))
+            f.truncate(nb * bs)
+        os.utime(path, ns=(t, t))
+    sparse(a.path('d1', 'big'), 1_600_000_000_000_000_321)
+    r = a.cmd('sync', timeout=900)
+    if r.rc != 0:
+        a.destroy(); return None
+    os.unlink(a.path('d1', 'big'))
+    sparse(a.path('d2', 'keep'), 1_600_000_100_000_000_321)
+    a.write('d1', 'small', rng.bytes(1000), 1_600_000_200_000_000_321)
+    r = a.cmd('sync', '-B', '1', '--force-empty', timeout=900)
+    stats['big_deleted_run'] = stats.get('big_deleted_run', 0) + 1
+    problem = None
+    blobs = [open(c, 'rb').read() for c in a.contents]
+    dec, reser = e2e.lean_decode([blobs[0]], 0)[0]
+    ndel = sum(len(dd) for dd in dec.deleted.values()) if dec.ok else -1
+    if r.rc != 0: problem = 'sync -B 1 over a 4 GiB deleted file exits %d' % r.rc
+    elif not dec.ok or reser != blobs[0].hex(): problem = 'the Lean model does not reproduce the saved content with a run of %d deleted blocks' % ndel
+    else:
+        t = a.cmd('test-rewrite', timeout=900)
+        if t.rc != 0 or [open(c, 'rb').read() for c in a.contents] != blobs:
+            problem = 'test-rewrite of the state with a run of %d deleted blocks (4 GiB) exits %d / does not reproduce the file' % (ndel, t.rc)
+        else:
+            l = a.cmd('list', timeout=900); r3 = a.cmd('sync', timeout=900)
+            if l.rc != 0 or r3.rc != 0: problem = 'the state with a run of %d deleted blocks cannot be used: list exits %d, the final sync %d' % (ndel, l.rc, r3.rc)
+    a.destroy()
+    return ('[long-deleted-run] ' + problem, problem) if problem else None
+
 def emptied_disk_history(exe, root, seed, stats):
     """a disk loses all its files while its longest extent reaches beyond every live file; a partial sync saves the
     state with DELETED blocks still referenced by the parity: the saved state must keep that disk and those blocks
@@ -252,6 +292,8 @@ def main(tier, seed):
         return nhist + i, emptied_disk_history(exe, os.path.join(vlib.scratch(), 'e%d' % i), seed * 100000 + 55000 + i, stats)
     with ThreadPoolExecutor(vlib.NCPU) as ex:
         res = list(ex.map(job, range(nhist))) + list(ex.map(job2, range(nemp))) + list(ex.map(lambda i: (nhist + nemp + i, deleted_hole(exe, os.path.join(vlib.scratch(), 'dh%d' % i), seed * 100000 + 56000 + i, stats)), range(8 if tier == 'quick' else 80)))
+    if True:
+        res.append((10**6, big_deleted_run(exe, os.path.join(vlib.scratch(), 'bigdel'), seed * 100000 + 57000, stats)))
     nbad = 0
     for i, r in res:
         if r:
@@ -263,7 +305,7 @@ def main(tier, seed):
             chk.violation('C10 static obligation failed: ' + o[0], o[0] + '\n' + o[2], False, 'static')
     chk.evaluations = stats.get('files', 0)
     chk.distinct = stats.get('files', 0)
-    chk.rule = ('every content file left by every command of %d seeded histories (grammar of C06): Lean decode -> Lean re-serialise must be byte-identical; all copies identical; decoded files/links/per-stripe info must equal `list -l` and `status -G -l` of the binary; `test-rewrite` byte-identical (1/2 of steps); the commands of three quarters of the histories run hours to days apart (frozen clock); plus %d emptied-disk histories (a disk loses every file while its extent reaches beyond all live files, partial sync -E -B k saves the state): C06 parity oracle on the reloaded state and fix of a lost file of another disk; every DELETED block must carry a hash the previous content file recorded at ITS position (history oracle), incl. directed runs of deleted blocks with a hole cleared in the middle by a ranged sync' % (nhist, nemp))
+    chk.rule = ('every content file left by every command of %d seeded histories (grammar of C06): Lean decode -> Lean re-serialise must be byte-identical; all copies identical; decoded files/links/per-stripe info must equal `list -l` and `status -G -l` of the binary; `test-rewrite` byte-identical (1/2 of steps); the commands of three quarters of the histories run hours to days apart (frozen clock); plus %d emptied-disk histories (a disk loses every file while its extent reaches beyond all live files, partial sync -E -B k saves the state): C06 parity oracle on the reloaded state and fix of a lost file of another disk; every DELETED block must carry a hash the previous content file recorded at ITS position (history oracle), incl. directed runs of deleted blocks with a hole cleared in the middle by a ranged sync, and one run of deleted blocks that covers 4 GiB (16 MiB blocks, sparse files)' % (nhist, nemp))
     chk.samples = [dict(stats)]
     chk.corr['CODEC'] = dict(stats)
     chk.finish()
